@@ -53,6 +53,8 @@ def elastic_specs(draw, dim, classes=("iso", "tiso", "ortho", "aniso")):
     else:
         spec["Cseed"] = draw(st.integers(0, 9999))
         spec["voigt"] = draw(st.booleans())  # the same stiffness handed over in Voigt notation
+    # unit system of the moduli (Pa vs GPa vs ...): every stiffness scales by this factor, Poisson ratios do not
+    spec["unit"] = draw(st.sampled_from([1.0, 1.0, 1.0, 1e-9, 1e9]))
     return spec
 
 
@@ -71,20 +73,21 @@ def make_elastic(spec, Q=None):
         a1, a2 = Q @ a1, Q @ a2
         flip3 = np.linalg.det(Q) < 0
     ps, th = bool(spec["planeStress"]), float(spec["thickness"])
+    un = float(spec.get("unit", 1.0))
     try:
         if cls == "iso":
-            mat = Models.Elastic.Isotropic(dim, E=spec["E"], v=spec["v"], planeStress=ps, thickness=th)
+            mat = Models.Elastic.Isotropic(dim, E=un * spec["E"], v=spec["v"], planeStress=ps, thickness=th)
         elif cls == "tiso":
-            mat = Models.Elastic.TransverselyIsotropic(dim, spec["El"], spec["Et"], spec["Gl"], spec["vl"],
+            mat = Models.Elastic.TransverselyIsotropic(dim, un * spec["El"], un * spec["Et"], un * spec["Gl"], spec["vl"],
                                                        spec["vt"], axis_l=a1, axis_t=a2, planeStress=ps, thickness=th)
         elif cls == "ortho":
-            mat = Models.Elastic.Orthotropic(dim, spec["E1"], spec["E2"], spec["E3"], spec["G23"], spec["G13"],
-                                             spec["G12"], spec["v23"], spec["v13"], spec["v12"], axis_1=a1, axis_2=a2,
-                                             planeStress=ps, thickness=th)
+            mat = Models.Elastic.Orthotropic(dim, un * spec["E1"], un * spec["E2"], un * spec["E3"], un * spec["G23"],
+                                             un * spec["G13"], un * spec["G12"], spec["v23"], spec["v13"], spec["v12"],
+                                             axis_1=a1, axis_2=a2, planeStress=ps, thickness=th)
         else:
             n = 3 if dim == 2 else 6
             B = np.random.default_rng(spec["Cseed"]).uniform(-1, 1, (n, n))
-            C = B @ B.T + 1.5 * np.eye(n)
+            C = un * (B @ B.T + 1.5 * np.eye(n))
             if flip3 and dim == 3:
                 sgn = np.array([1, 1, 1, -1, -1, 1.0])
                 C = C * np.outer(sgn, sgn)
